@@ -280,6 +280,11 @@ def SimFilterClass():
                     elif f['what'] == 'stop':
                         self.stop_evt.set()
 
+        def init(self, config):
+            self._log('init_begin')
+            super().init(config)
+            self._log('init_done')
+
         def setup(self, config):
             self.ncalls = 0
             self.nsent  = 0
@@ -330,6 +335,11 @@ def SimFilterClass():
                         return deferred
                     if op[0] == 'empty_at' and seq in op[1]:
                         return {}
+                    if op[0] == 'callable_raise' and seq == op[1]:
+                        def deferred_raise():
+                            self._log('fault', stage='send', k=k, what='raise')
+                            raise RuntimeError('scripted failure in send')
+                        return deferred_raise
 
                 return out
 
@@ -394,6 +404,12 @@ def SimFilterClass():
                     ret = deferred
                 elif o == 'none':
                     ret = None
+                elif o == 'callable_raise':     # ('callable_raise', k): the deferred result of call k raises when it is evaluated (at send)
+                    if k == op[1]:
+                        def deferred_raise():
+                            self._log('fault', stage='send', k=k, what='raise')
+                            raise RuntimeError('scripted failure in send')
+                        ret = deferred_raise
                 else:
                     raise ValueError(f'unknown op {op}')
 
@@ -517,6 +533,29 @@ def execute(scn, prefix=(), base_order='fifo', keep_world=False):
             w.at(at, lambda f=f: start_filter(f), f'start {f["name"]}')
         else:
             start_filter(f)
+
+    for addr, nok in (scn.get('fail_bind') or {}).items():
+        w.net.fail_bind[addr] = (nok, simzmq.ZMQError(98, f'Address already in use (addr={addr!r})'))
+
+    for inj in scn.get('inject', ()):
+        def do(inj=inj):
+            subs = [x for x in w.net.all_sockets if x.type == simzmq.SUB and not x.closed and x.owner is not None
+                    and x.owner.name == inj['to'] and addr_of(inj['from']) in x.connected]
+
+            for sub in subs:
+                w.net.msg_seq += 1
+                parts = [simzmq.TB(b'//'), simzmq.TB(b'{this is not json')]
+                sub.inbox.append(simzmq.Msg(parts, w.now, w.net.msg_seq, ('raw', None, None, 'malformed', None), None))
+                w.log.append({'ev': 'inject', 'f': inj['to'], 't': w.now})
+
+        w.at(inj['at_ms'], do, 'inject')
+
+    for st in scn.get('stop_at', ()):
+        def do(st=st):
+            w.log.append({'ev': 'set_stop', 'f': st['f'], 't': w.now})
+            evts[st['f']].set()
+
+        w.at(st['at_ms'], do, 'stop')
 
     if (hook := scn.get('_hook')) is not None:      # in-process only (not JSON): lets a check install fault menus etc.
         hook(w, scn)
